@@ -11,7 +11,7 @@
 (* code uses (pop a group, emit its shape children with the group's matrix * own, push its group   *)
 (* children with composed matrices); the invariant StackEqualsRecursive says both agree.           *)
 EXTENDS AffineOps, FiniteSets, TLC, Json
-CONSTANTS MaxNodes, ShapeKinds, TfCount
+CONSTANTS MaxNodes, ShapeKinds, TfCount, RootTfs      \* RootTfs: transform lists the root <svg> element may carry ({1} = none)
 
 (* transform lists that may appear in a transform attribute (index 1 = attribute absent) *)
 TfLists == << <<>>,
@@ -31,8 +31,8 @@ AllShapes == {"path", "line", "polyline", "polygon", "rect", "rrect", "circle", 
 
 VARIABLES nodes, phase, stack, out
 vars == <<nodes, phase, stack, out>>
-Root == [parent |-> 0, kind |-> "g", tf |-> 1]
-Init == nodes = <<Root>> /\ phase = "build" /\ stack = <<>> /\ out = {}
+Root(t) == [parent |-> 0, kind |-> "g", tf |-> t]
+Init == (\E t \in RootTfs : nodes = <<Root(t)>>) /\ phase = "build" /\ stack = <<>> /\ out = {}
 IsGroup(k) == nodes[k].kind = "g"
 AddNode == /\ phase = "build" /\ Len(nodes) < MaxNodes
            /\ \E p \in 1..Len(nodes), kd \in ShapeKinds \cup {"g"}, t \in 1..TfCount :
